@@ -74,9 +74,29 @@ class Mode:
 
             return S.Sym.symbol(name, kind)
         if name not in self.env:
-            # symbols that do not occur in the failed obligation: deterministic filler values
-            h = int(hashlib.sha1(name.encode()).hexdigest()[:8], 16)
-            self.env[name] = Fraction(30 + h % 271, 100) if kind == "pos" else Fraction(h % 401 - 200, 100)
+            rng = getattr(self, "sample_rng", None)
+            if rng is not None:
+                # bounded stand-in: draw the input from the stated domain (seeded)
+                dom = getattr(self, "sample_domain", {})
+                lo, hi = dom.get("pos", (0.05, 20.0))
+                for pref, rngs in dom.get("by_prefix", {}).items():
+                    if name.startswith(pref):
+                        lo, hi = rngs
+                if kind == "pos":
+                    import math
+
+                    v = math.exp(rng.uniform(math.log(lo), math.log(hi)))
+                    self.env[name] = Fraction(round(v, 6)).limit_denominator(10**6) or Fraction(1, 1000)
+                else:
+                    span = dom.get("real", 1.5)
+                    z = rng.random()
+                    # coincident / on-axis values are part of the domain
+                    v = 0.0 if z < 0.08 else rng.uniform(-span, span)
+                    self.env[name] = Fraction(round(v, 6)).limit_denominator(10**6)
+            else:
+                # symbols that do not occur in the failed obligation: deterministic filler values
+                h = int(hashlib.sha1(name.encode()).hexdigest()[:8], 16)
+                self.env[name] = Fraction(30 + h % 271, 100) if kind == "pos" else Fraction(h % 401 - 200, 100)
             self.F.env = self.env
         return self.F.real(name)
 
@@ -308,6 +328,19 @@ class Mode:
                          cex={"env": {k: str(v) for k, v in self.env.items()}})
 
 
+def _parse_num(x):
+    import mpmath
+
+    if isinstance(x, list):
+        return mpmath.mpc(mpmath.mpf(x[0]), mpmath.mpf(x[1]))
+    x = str(x).strip("()")
+    try:
+        return mpmath.mpf(x)
+    except Exception:
+        c = complex(x)
+        return mpmath.mpc(c.real, c.imag)
+
+
 def _nopath(name):
     import re
 
@@ -435,10 +468,12 @@ def load_harness(ref):
     return getattr(mod, cls)()
 
 
-def run_task(ref, shape, kind="sym", env=None, wanted=None):
+def run_task(ref, shape, kind="sym", env=None, wanted=None, sample_seed=None):
     """run one harness on one shape; returns a JSON-able record"""
     t0 = time.time()
-    rec = {"harness": ref, "shape": shape, "results": [], "status": "ok", "secs": 0.0}
+    rec = {"harness": ref, "shape": shape, "results": [], "status": "ok", "secs": 0.0, "kind": kind}
+    if sample_seed is not None:
+        rec["sample_seed"] = sample_seed
     try:
         h = load_harness(ref)
         from . import alg, bind, sym as S
@@ -449,14 +484,20 @@ def run_task(ref, shape, kind="sym", env=None, wanted=None):
             bind.fresh_proxy()
             S.set_decider(None)
         else:
+            bind.uninstall()
             bind.ensure_path()
         M = Mode(kind, env=_parse_env(env), tol=getattr(h, "tol", 1e-9))
         M.wanted = wanted
+        if sample_seed is not None:
+            M.sample_rng = random.Random(sample_seed)
+            M.sample_domain = getattr(h, "fp_domain", {})
         M.mods = bind.modules()
         if kind == "mp":
             bind.PROXY.pi = M.F.pi
         h.run(shape, M)
         rec["results"] = M.results
+        if sample_seed is not None:
+            rec["env"] = {k: str(v) for k, v in M.env.items()}
         rec["nsym"] = len(alg.ctx().names) if kind == "sym" else 0
         if kind == "sym":
             rec["side"] = sorted({k for k, _ in alg.ctx().side})
@@ -550,9 +591,19 @@ def run_check(check, tier, seed, jobs=None, extra_bounded=None):
         for shape in h.shapes(tier):
             tasks.append((ref, shape))
     records = []
-    # largest tasks first
+    fptasks = []
+    nsamp = int(os.environ.get("VERIF_FP_SAMPLES", "3" if tier == "quick" else "40"))
+    for ref in check.harnesses:
+        h = load_harness(ref)
+        if getattr(h, "fp", False):
+            shapes = h.fp_shapes(tier) if hasattr(h, "fp_shapes") else h.shapes(tier)
+            for si, shape in enumerate(shapes):
+                for k in range(nsamp):
+                    fptasks.append((ref, shape, seed * 1000003 + si * 1009 + k))
     with ProcessPoolExecutor(max_workers=jobs) as ex:
         futs = {ex.submit(run_task, ref, shape): (ref, shape) for ref, shape in tasks}
+        for ref, shape, ss in fptasks:
+            futs[ex.submit(run_task, ref, shape, "float", None, None, ss)] = (ref, shape)
         for fut in as_completed(futs):
             ref, shape = futs[fut]
             try:
@@ -575,9 +626,35 @@ def summarize(check, tier, seed, records, wall, extra_bounded=None):
     bounded_total = bounded_ok = 0
     for rec in records:
         try:
-            is_bounded = bool(getattr(load_harness(rec["harness"]), "bounded", False))
+            hobj = load_harness(rec["harness"])
+            is_bounded = bool(getattr(hobj, "bounded", False))
         except Exception:
-            is_bounded = False
+            hobj, is_bounded = None, False
+        if rec.get("kind") == "float" and "sample_seed" in rec:
+            # bounded stand-in for the rounding gap: unmodified float64 code vs the specification at 50 digits
+            tol = getattr(hobj, "fp_tol", 1e-8)
+            if rec["status"] == "crash":
+                crashes.append(rec)
+            for r in rec["results"]:
+                full = "%s/fp/%s@%s#%s" % (prop, r["name"], _shape_tag(rec["shape"]), rec["sample_seed"])
+                bounded_total += 1
+                bad = False
+                if r["status"] == "value":
+                    g, e = _parse_num(r["got"]), _parse_num(r["exp"])
+                    scale = max(abs(e), 1.0) if not getattr(hobj, "fp_relative", False) else max(abs(e), abs(g), 1e-300)
+                    err = abs(g - e)
+                    bad = not (err <= tol * scale)
+                    if bad:
+                        r = dict(r, status="failed", detail="float64 result %s vs %s (|err| %.3g > %g * %.3g)" % (r["got"], r["exp"], float(err), tol, float(scale)),
+                                 cex={"env": rec.get("env", {})})
+                elif r["status"] == "failed":
+                    bad = True
+                    r = dict(r, cex={"env": rec.get("env", {})})
+                if bad:
+                    failed.append((full, rec, r))
+                else:
+                    bounded_ok += 1
+            continue
         if rec["status"] == "crash":
             crashes.append(rec)
         elif rec["status"] == "undecided":
